@@ -18,16 +18,19 @@
 //!   exact in/out-of-memory edges (MEM-$is)/4, (MEM-$pc)/4, $pc/4 and the values at which
 //!   a wrapping multiplication/addition would come back into memory) x ALL 4096 imm12
 //!   (JNEI JNZF JNZB JAL), ALL 64 imm06 (JNEF JNEB), ALL 2^18 imm18 (JNZI JMPF JMPB;
-//!   reduced register set in quick, full B in thorough), imm24 (JI: ALL 2^24 at one
-//!   placement + boundary/stride set elsewhere in quick, ALL 2^24 everywhere in thorough)
+//!   reduced register set in quick, full B in thorough), imm24 (JI: boundary/stride set
+//!   of ~33k values per placement incl. +-64 around (MEM-$is)/4, plus in quick ALL imm24
+//!   in [0,2^21) and [2^24-2^21,2^24) at one placement, in thorough ALL 2^24 everywhere)
 //!   x condition operands making the jump taken / untaken x register layouts (distinct,
 //!   aliased, system registers as sources, all 15 reserved link registers for JAL), plus
 //!   a dense grid (dynamic register 0..4095 x small immediates) for every register form.
+//!   The exact products and their sizes are listed in the evidence (`part1_spaces`).
 //!  Part 2 "exec_region" (real fetch, `vmkit::step`): contexts {script, inside contract A,
 //!   script after LDC appended code} x stack extension {0, 8, 64 bytes} x heap allocation
-//!   {0, 8, 65536, all but 64 bytes} x $pc over every byte address in windows around $is,
-//!   $ssp, $sp, $hp, MEM and far-out values; a marker instruction (MOVI) is written to
-//!   the fetched word wherever memory is allocated.
+//!   {0, 8, 65536, all but 64 bytes (with the 8-byte stack extension only)} x $pc over
+//!   every byte address in windows around $is, $ssp, $sp, $hp, MEM (and the old $ssp after
+//!   LDC) and far-out values; a marker instruction (MOVI) is written to the fetched word
+//!   wherever memory is allocated.
 //!  Part 3 "prog" (programs): all programs of length <= k (3 quick / 4 thorough) over a
 //!   26-letter alphabet of loops, skips, conditional jumps, three JAL subroutines, CALL
 //!   into a contract that itself loops/jumps/links, LDC + jump into the loaded code, run
@@ -1180,10 +1183,8 @@ fn part2(ctx: &Ctx) {
             ctx.cap("time budget used up inside part 2");
             break
         }
-        let t0 = ctx.elapsed();
         let mut base = build_scen(&w, *s);
         let pcs = positions(&base, true, s.ctx == 2);
-        if std::env::var("C25_TIMING").is_ok() { eprintln!("scen {:?} built in {:.2}s ({} pcs) at {:.2}", s, ctx.elapsed() - t0, pcs.len(), ctx.elapsed()); }
         let mut res: Vec<(Obs2, Option<(String, String)>)> = Vec::new();
         if s.aloc == 3 {
             // 64 MiB heap: one VM, cases run in place one after the other
